@@ -3,6 +3,7 @@ import GlonaxModel.Driver.Hcu
 import GlonaxModel.Driver.Wire
 import GlonaxModel.Driver.Session
 import GlonaxModel.Driver.Drivers
+import GlonaxModel.Driver.Director
 open Glonax.Driver
 
 def dispatch (prop : String) (inp out : List String) : Verdict :=
@@ -17,6 +18,7 @@ def dispatch (prop : String) (inp out : List String) : Verdict :=
   | "C05" => SessDrv.check "C05" inp out
   | "C14" => SessDrv.check "C14" inp out
   | "C06" => DrvDrv.check "C06" inp out
+  | "C09" => DirDrv.check inp out
   | "C08" => DrvDrv.check "C08" inp out
   | "C11" => DrvDrv.check "C11" inp out
   | "C12" => DrvDrv.check "C12" inp out
